@@ -230,7 +230,7 @@ Section SimProofs.
     | None => s_shift s = None /\ i_t0 (s_int s) == 0
     | Some segs =>
         exists segs' sg t y, segs = segs' ++ [sg ++ [(t, y)]]
-          /\ incr (index_of s) /\ i_t0 (s_int s) + shiftv s == t
+          /\ incr (index_of s) /\ i_t0 (s_int s) + shiftv s == t /\ 0 <= i_t0 (s_int s)
     end.
 
   Lemma last_row_snoc (segs' : list (segment Y)) sg (r : Q * Y) :
@@ -251,10 +251,11 @@ Section SimProofs.
     exists r, prior_t_end s = Some r /\ i_t0 (s_int s) + shiftv s == r /\ incr (index_of s)
               /\ (forall a, In a (index_of s) -> a <= r)
               /\ (s_vars s = None -> s_shift s = None /\ r = 0)
-              /\ (s_vars s <> None -> exists pre, index_of s = pre ++ [r]).
+              /\ (s_vars s <> None -> exists pre, index_of s = pre ++ [r])
+              /\ 0 <= i_t0 (s_int s).
   Proof.
     unfold Inv, Simulator.prior_t_end, Simulator.index_of. destruct (s_vars s) as [segs|] eqn:Ev.
-    - intros (segs' & sg & t & y & -> & Hinc & Ht0). exists t.
+    - intros (segs' & sg & t & y & -> & Hinc & Ht0 & Hpos). exists t.
       rewrite last_row_snoc. rewrite index_snoc in *.
       repeat split; try assumption.
       + intros a Ha. apply in_app_or in Ha. destruct Ha as [Ha|[<-|[]]]; [|lra].
@@ -264,7 +265,7 @@ Section SimProofs.
       + intros _. eexists. reflexivity.
     - intros [Hs Ht0]. exists 0. unfold shiftv. rewrite Hs.
       split; [reflexivity|]. split; [lra|]. split; [exact I|]. split; [intros a []|].
-      split; [intros _; split; reflexivity|congruence].
+      split; [intros _; split; reflexivity|]. split; [congruence|lra].
   Qed.
 
   (** ** one call of the integrator on a forward stretch, followed by [_handle_simulation_results] *)
@@ -371,7 +372,7 @@ Section SimProofs.
     /\ prior_t_end (after_ok s h rest) = Some (add_shift (s_shift s) (lastq rest h)).
   Proof.
     intros HI Hh Hne Hinc.
-    destruct (Inv_prior s HI) as (r & Hpr & Hsync & Hincr & Hmax & Hnone & Hsome).
+    destruct (Inv_prior s HI) as (r & Hpr & Hsync & Hincr & Hmax & Hnone & Hsome & Hpos).
     destruct (exists_last' rest Hne) as (pre & x & ->). rewrite lastq_app.
     assert (Hshape : exists segs' sg y,
                s_vars (after_ok s h (pre ++ [x])) = Some (segs' ++ [sg ++ [(add_shift (s_shift s) x, y)]])).
@@ -395,8 +396,9 @@ Section SimProofs.
     split.
     - unfold Inv. rewrite Hv. exists segs', sg, (add_shift (s_shift s) x), y.
       split; [reflexivity|]. split; [exact Hidx|].
-      unfold after_ok at 1. cbn [s_int i_t0]. rewrite lastq_app.
-      unfold shiftv. unfold after_ok. cbn [s_shift]. fold (shiftv s). rewrite add_shift_v. lra.
+      unfold after_ok at 1 3. cbn [s_int i_t0]. rewrite lastq_app.
+      unfold shiftv. unfold after_ok. cbn [s_shift]. fold (shiftv s). rewrite add_shift_v.
+      split; [lra|]. destruct Hinc as [Hh' _]. assert (Hx : In x (pre ++ [x])) by (apply in_or_app; right; left; reflexivity). specialize (Hh' x Hx). lra.
     - unfold Simulator.prior_t_end. rewrite Hv, last_row_snoc. reflexivity.
   Qed.
 
@@ -422,7 +424,7 @@ Section SimProofs.
          /\ simulate_time_course s pts = step_result s h rest).
   Proof.
     intros HI Herr Hne r rel.
-    destruct (Inv_prior s HI) as (r0 & Hpr & Hsync & Hincr & Hmax & Hnone & Hsome).
+    destruct (Inv_prior s HI) as (r0 & Hpr & Hsync & Hincr & Hmax & Hnone & Hsome & Hpos).
     assert (Hr : r = r0) by (apply reached_prior; exact Hpr). subst r0.
     unfold Simulator.simulate_time_course. rewrite Herr, Hpr.
     destruct pts as [|p0 ps]; [congruence|].
@@ -451,4 +453,339 @@ Section SimProofs.
       destruct Hrest as [Hrne Hhlt].
       exists h, rest. split; [exact Heff|]. split; [exact Hh|]. split; [exact Hrne|]. split; [exact Hsh|].
       apply (finish_itc s rel h rest Hrelne Heff Hrne Hhlt).
+  Qed.
+
+  (** lists of times equal up to [==] *)
+  Definition Qeql : list Q -> list Q -> Prop := Forall2 Qeq.
+
+  Lemma map_add_sub (s : sim) l : Qeql (map (add_shift (s_shift s)) (map (sub_shift (s_shift s)) l)) l.
+  Proof.
+    induction l as [|x r IH]; [constructor|]. cbn [map]. constructor; [|exact IH].
+    rewrite add_shift_v, sub_shift_v. lra.
+  Qed.
+
+  Lemma incr_map_sub (s : sim) l : incr (map (sub_shift (s_shift s)) l) <-> incr l.
+  Proof.
+    induction l as [|x r IH]; [reflexivity|]. cbn [map incr]. rewrite IH.
+    split; intros [Hx Hr]; (split; [|exact Hr]).
+    - intros y Hy. specialize (Hx (sub_shift (s_shift s) y) (in_map _ _ _ Hy)).
+      rewrite !sub_shift_v in Hx. lra.
+    - intros y Hy. apply in_map_iff in Hy. destruct Hy as (z & <- & Hz). specialize (Hx z Hz).
+      rewrite !sub_shift_v. lra.
+  Qed.
+
+  Lemma filter_filter_imp {A} (f g : A -> bool) l :
+    (forall x, f x = true -> g x = true) -> filter f (filter g l) = filter f l.
+  Proof.
+    intros H. induction l as [|x r IH]; [reflexivity|]. cbn [filter].
+    destruct (g x) eqn:Eg; cbn [filter].
+    - rewrite IH. reflexivity.
+    - destruct (f x) eqn:Ef; [rewrite (H x Ef) in Eg; discriminate|exact IH].
+  Qed.
+
+  Lemma filter_all {A} (f : A -> bool) l : (forall x, In x l -> f x = true) -> filter f l = l.
+  Proof.
+    induction l as [|x r IH]; [reflexivity|]. intros H. cbn [filter].
+    rewrite (H x (or_introl eq_refl)). f_equal. apply IH. intros y Hy. apply H. right. exact Hy.
+  Qed.
+
+  (** the points appended by an accepted time course are exactly the requested points later than
+      the time already reached (and the array is refused iff the kept part is not increasing) *)
+  Lemma tc_new_points (s : sim) pts h rest :
+    let r := reached s in
+    let keep := filter (fun t => Qle_bool r t) pts in
+    let rel := map (sub_shift (s_shift s)) keep in
+    i_t0 (s_int s) + shiftv s == r -> h == i_t0 (s_int s) ->
+    ((h = i_t0 (s_int s) /\ rest = rel /\ forall d, ~ hd d rel == i_t0 (s_int s)) \/ rel = h :: rest) ->
+    (incr (h :: rest) <-> incr keep)
+    /\ (incr (h :: rest) ->
+        Qeql (map (add_shift (s_shift s)) rest) (filter (fun t => Qltb r t) pts)).
+  Proof.
+    intros r keep rel Hsync Hh Hsh.
+    assert (Hge : forall t, In t rel -> i_t0 (s_int s) <= t).
+    { intros t Ht. apply in_map_iff in Ht. destruct Ht as (z & <- & Hz).
+      apply filter_In in Hz. destruct Hz as [_ Hz]. apply Qle_bool_iff in Hz. rewrite sub_shift_v. lra. }
+    destruct Hsh as [(-> & -> & Hhd)|Hsh].
+    - split.
+      + cbn [incr]. fold rel. unfold rel at 2. rewrite incr_map_sub. split; [tauto|]. intro Hk.
+        split; [|exact Hk]. fold rel.
+        assert (Hrel : incr rel) by (unfold rel; apply incr_map_sub; exact Hk).
+        destruct rel as [|x rl] eqn:Erel; [intros ? []|].
+        intros y Hy. assert (Hx : i_t0 (s_int s) < x).
+        { specialize (Hge x (or_introl eq_refl)). specialize (Hhd 0). cbn in Hhd.
+          destruct (Qlt_le_dec (i_t0 (s_int s)) x) as [L|L]; [exact L|]. exfalso. apply Hhd. lra. }
+        destruct Hy as [<-|Hy]; [exact Hx|]. destruct Hrel as [Hxr _]. specialize (Hxr y Hy). lra.
+      + intros [Hall _]. fold rel in Hall.
+        assert (E : filter (fun t => Qltb r t) pts = keep).
+        { unfold keep. apply filter_ext_in. intros t Ht.
+          destruct (Qle_bool r t) eqn:El.
+          - apply Qltb_iff. assert (Hin : In (sub_shift (s_shift s) t) rel).
+            { unfold rel, keep. apply in_map, filter_In. split; assumption. }
+            specialize (Hall _ Hin). rewrite sub_shift_v in Hall. lra.
+          - apply Qltb_false. apply Qle_bool_false in El. lra. }
+        rewrite E. apply map_add_sub.
+    - destruct keep as [|k0 krest] eqn:Ek; [discriminate|].
+      unfold rel in Hsh. cbn [map] in Hsh. injection Hsh as Hk0 Hkr.
+      split.
+      + rewrite <- Hk0, <- Hkr. change (incr (map (sub_shift (s_shift s)) (k0 :: krest)) <-> incr (k0 :: krest)).
+        apply incr_map_sub.
+      + intros [Hall _].
+        assert (E : filter (fun t => Qltb r t) pts = krest).
+        { rewrite <- (filter_filter_imp (fun t => Qltb r t) (fun t => Qle_bool r t)).
+          - fold keep. rewrite Ek. cbn [filter].
+            assert (E0 : Qltb r k0 = false).
+            { apply Qltb_false. rewrite <- Hk0 in Hh. rewrite sub_shift_v in Hh. lra. }
+            rewrite E0. apply filter_all. intros t Ht. apply Qltb_iff.
+            assert (Hin : In (sub_shift (s_shift s) t) rest) by (rewrite <- Hkr; apply in_map; exact Ht).
+            specialize (Hall _ Hin). rewrite sub_shift_v in Hall. lra.
+          - intros t Ht. apply Qltb_iff in Ht. apply Qle_bool_iff. lra. }
+        rewrite E, <- Hkr. apply map_add_sub.
+  Qed.
+
+  (** ** np.linspace *)
+  Definition lin_pt (a b : Q) (m : nat) (i : nat) : Q :=
+    a + inject_Z (Z.of_nat i) * ((b - a) / inject_Z (Z.of_nat m)).
+
+  Lemma linspace_shape a b m :
+    linspace a b (S (S m)) = lin_pt a b (S m) 0 :: (map (lin_pt a b (S m)) (seq 1 m) ++ [b]).
+  Proof. reflexivity. Qed.
+
+  Lemma inject_nat_lt i j : (i < j)%nat -> inject_Z (Z.of_nat i) < inject_Z (Z.of_nat j).
+  Proof. intro H. rewrite <- Zlt_Qlt. lia. Qed.
+
+  Lemma lin_step_pos a b m : a < b -> 0 < (b - a) / inject_Z (Z.of_nat (S m)).
+  Proof.
+    intro H. apply Qlt_shift_div_l.
+    - change 0 with (inject_Z (Z.of_nat 0)). apply inject_nat_lt. lia.
+    - lra.
+  Qed.
+
+  Lemma lin_pt_mono a b m i j : a < b -> (i < j)%nat -> lin_pt a b (S m) i < lin_pt a b (S m) j.
+  Proof.
+    intros Hab Hij. unfold lin_pt. pose proof (lin_step_pos a b m Hab) as Hd.
+    pose proof (inject_nat_lt i j Hij) as Hq.
+    assert (inject_Z (Z.of_nat i) * ((b - a) / inject_Z (Z.of_nat (S m)))
+            < inject_Z (Z.of_nat j) * ((b - a) / inject_Z (Z.of_nat (S m)))).
+    { apply Qmult_lt_compat_r; assumption. }
+    lra.
+  Qed.
+
+  Lemma lin_pt_end a b m : lin_pt a b (S m) (S m) == b.
+  Proof.
+    unfold lin_pt. field. intro H.
+    assert (0 < inject_Z (Z.of_nat (S m))) by (change 0 with (inject_Z (Z.of_nat 0)); apply inject_nat_lt; lia).
+    lra.
+  Qed.
+
+  Lemma lin_pt_start a b m : lin_pt a b m 0 == a.
+  Proof. unfold lin_pt. change (inject_Z (Z.of_nat 0)) with 0. rewrite Qmult_0_l. lra. Qed.
+
+  Lemma incr_map_seq (f : nat -> Q) k n :
+    (forall i j, (i < j)%nat -> f i < f j) -> incr (map f (seq k n)).
+  Proof.
+    intro Hf. revert k. induction n as [|n IH]; intro k; [exact I|].
+    cbn [seq map incr]. split; [|apply IH].
+    intros y Hy. apply in_map_iff in Hy. destruct Hy as (j & <- & Hj). apply in_seq in Hj. apply Hf. lia.
+  Qed.
+
+  Lemma linspace_incr a b m : a < b -> incr (linspace a b (S (S m))).
+  Proof.
+    intro Hab. rewrite linspace_shape.
+    change (incr (map (lin_pt a b (S m)) (seq 0 (S m)) ++ [b])).
+    apply incr_app. split; [|split].
+    - apply incr_map_seq. intros i j Hij. apply lin_pt_mono; assumption.
+    - cbn. split; [intros ? []|exact I].
+    - intros x y Hx Hy. destruct Hy as [Hy|[]]. subst y.
+      apply in_map_iff in Hx. destruct Hx as (i & <- & Hi). apply in_seq in Hi.
+      rewrite <- (lin_pt_end a b m) at 2. apply lin_pt_mono; [assumption|lia].
+  Qed.
+
+  (** ** simulate *)
+  Definition n_points (steps : option nat) : nat := match steps with None => 100%nat | Some st => S st end.
+
+  Definition sim_h (s : sim) (t_end : Q) (m : nat) : Q :=
+    lin_pt (i_t0 (s_int s)) (sub_shift (s_shift s) t_end) (S m) 0.
+  Definition sim_rest (s : sim) (t_end : Q) (m : nat) : list Q :=
+    map (lin_pt (i_t0 (s_int s)) (sub_shift (s_shift s) t_end) (S m)) (seq 1 m) ++ [sub_shift (s_shift s) t_end].
+
+  Lemma sim_step (good : good_facts) s t_end steps m :
+    Inv s -> has_errors s = false -> n_points steps = S (S m) ->
+    (t_end <= reached s -> simulate s t_end steps = (s, RaisedValue)) /\
+    (reached s < t_end ->
+       sim_h s t_end m == i_t0 (s_int s) /\ incr (sim_h s t_end m :: sim_rest s t_end m)
+       /\ simulate s t_end steps =
+            if solve_ok (s_mp s) (sim_h s t_end m) (i_y0 (s_int s)) (sub_shift (s_shift s) t_end)
+            then (after_ok s (sim_h s t_end m) (sim_rest s t_end m), Done) else (after_fail s, Done)).
+  Proof.
+    intros HI Herr Hn.
+    destruct (Inv_prior s HI) as (r0 & Hpr & Hsync & Hincr & Hmax & Hnone & Hsome & Hpos).
+    assert (Hr : reached s = r0) by (apply reached_prior; exact Hpr). subst r0.
+    unfold Simulator.simulate. rewrite Herr, Hpr.
+    rewrite (g_sim_frame good), (g_sim_cmp good), (g_skip_sim good). unfold framed, cmpb. cbn [fst snd].
+    split.
+    - intro Hle. apply Qle_bool_iff in Hle. rewrite Hle. reflexivity.
+    - intro Hlt. assert (E : Qle_bool t_end (reached s) = false) by (apply Qle_bool_false; exact Hlt). rewrite E.
+      set (h := sim_h s t_end m). set (rest := sim_rest s t_end m).
+      set (t0 := i_t0 (s_int s)) in *. set (te := sub_shift (s_shift s) t_end) in *.
+      assert (Hte : t0 < te) by (unfold te; rewrite sub_shift_v; lra).
+      assert (Hh : h == t0) by apply lin_pt_start.
+      assert (Hinc : incr (h :: rest)) by (pose proof (linspace_incr t0 te m Hte) as L; rewrite linspace_shape in L; exact L).
+      split; [exact Hh|]. split; [exact Hinc|].
+      unfold Integrator.integrate. fold (n_points steps). rewrite Hn. fold t0. rewrite linspace_shape.
+      change (lin_pt t0 te (S m) 0) with h.
+      change (map (lin_pt t0 te (S m)) (seq 1 m) ++ [te]) with rest.
+      assert (Heff : tp_eff t0 (h :: rest) = h :: rest).
+      { unfold tp_eff. apply Qeq_bool_iff in Hh. rewrite Hh. reflexivity. }
+      assert (Hrne : rest <> []) by (unfold rest, sim_rest; destruct (map _ (seq 1 m)); discriminate).
+      assert (Hlast : lastq rest h = te) by (unfold rest, sim_rest; apply lastq_app).
+      rewrite (finish_itc s (h :: rest) h rest ltac:(discriminate) Heff Hrne).
+      + rewrite (incr_incrb _ Hinc), Hlast. reflexivity.
+      + rewrite Hlast. lra.
+  Qed.
+
+  (** ** the state the next segment starts from *)
+  Definition start_state (s : sim) : Y :=
+    match s_vars s with
+    | None => s_y0 s
+    | Some segs =>
+        match last_row Y segs with
+        | Some (t, y) => match s_shift s with
+                         | Some sh => if Qeq_bool sh t then s_y0 s else y
+                         | None => y
+                         end
+        | None => s_y0 s
+        end
+    end.
+
+  (** the integrator holds that state: the last row, or the overridden state while an override is pending *)
+  Definition VInv (s : sim) : Prop := i_y0 (s_int s) = start_state s.
+  Definition Inv2 (s : sim) : Prop := Inv s /\ VInv s.
+
+  Lemma after_ok_last_row s h rest :
+    rest <> [] ->
+    exists segs, s_vars (after_ok s h rest) = Some segs /\
+      last_row Y segs = Some (add_shift (s_shift s) (lastq rest h),
+                              flow (s_mp s) h (i_y0 (s_int s)) (lastq rest h - h)).
+  Proof.
+    intro Hne. destruct (exists_last' rest Hne) as (pre & x & ->). rewrite lastq_app.
+    unfold after_ok. cbn [s_vars]. destruct (s_vars s) as [l|]; eexists; (split; [reflexivity|]).
+    - unfold new_rows. rewrite map_app. cbn [map]. apply last_row_snoc.
+    - unfold new_rows. rewrite app_comm_cons, map_app. cbn [map].
+      change [?a ++ [?b]] with ([] ++ [a ++ [b]]). apply last_row_snoc.
+  Qed.
+
+  Lemma after_ok_inv2 s h rest :
+    Inv2 s -> h == i_t0 (s_int s) -> rest <> [] -> incr (h :: rest) -> Inv2 (after_ok s h rest).
+  Proof.
+    intros [HI HV] Hh Hne Hinc. split; [apply after_ok_inv; assumption|].
+    destruct (Inv_prior s HI) as (r & Hpr & Hsync & Hincr & Hmax & Hnone & Hsome & Hpos).
+    destruct (after_ok_last_row s h rest Hne) as (segs & Hv & Hl).
+    unfold VInv, start_state. rewrite Hv, Hl. unfold after_ok at 1 2 3. cbn [s_int i_y0 s_shift s_y0].
+    assert (Hx : h < lastq rest h).
+    { destruct Hinc as [Hh' _]. apply Hh'. apply lastq_In. exact Hne. }
+    destruct (s_shift s) as [sh|] eqn:Es; [|reflexivity].
+    assert (E : Qeq_bool sh (add_shift (Some sh) (lastq rest h)) = false).
+    { apply Qeq_bool_false. cbn [add_shift]. lra. }
+    rewrite E. reflexivity.
+  Qed.
+
+  Lemma after_fail_inv2 s : Inv2 s -> Inv2 (after_fail s).
+  Proof. intros H. exact H. Qed.
+
+  Lemma step_result_inv2 s h rest :
+    Inv2 s -> h == i_t0 (s_int s) -> rest <> [] -> Inv2 (fst (step_result s h rest)).
+  Proof.
+    intros HI Hh Hne. unfold step_result.
+    destruct (incrb (h :: rest)) eqn:E; [|exact HI].
+    destruct (solve_ok _ _ _ _); cbn [fst]; [|apply after_fail_inv2; exact HI].
+    apply after_ok_inv2; try assumption. apply incrb_incr. exact E.
+  Qed.
+
+  Lemma sim_steps0 s t_end : fst (simulate s t_end (Some 0%nat)) = s.
+  Proof.
+    unfold Simulator.simulate. destruct (has_errors s); [reflexivity|].
+    destruct (prior_t_end s) as [pr|]; [|reflexivity].
+    destruct (cmpb _ _ _); [reflexivity|].
+    unfold Integrator.integrate. cbn [linspace].
+    unfold Integrator.integrate_time_course, Integrator.solve_ivp.
+    assert (E : Qeq_bool (i_t0 (s_int s)) (i_t0 (s_int s)) = true) by (apply Qeq_bool_iff; reflexivity).
+    rewrite E. cbn [negb lastq forallb].
+    destruct s as [y0 vars pars sh errs ig mp]. cbn [s_int] in *.
+    destruct (negb _); [reflexivity|].
+    assert (E1 : Qltb (i_t0 ig) (i_t0 ig) = false) by (apply Qltb_false; lra).
+    rewrite E1, E. reflexivity.
+  Qed.
+
+  Lemma simulate_inv2 (good : good_facts) s t_end steps :
+    Inv2 s -> Inv2 (fst (simulate s t_end steps)).
+  Proof.
+    intros HI.
+    destruct (has_errors s) eqn:Herr.
+    { unfold Simulator.simulate. rewrite Herr. exact HI. }
+    assert (Hcases : steps = Some 0%nat \/ exists m, n_points steps = S (S m)).
+    { destruct steps as [[|k]|]; [left; reflexivity|right; exists k; reflexivity|right; exists 98%nat; reflexivity]. }
+    destruct Hcases as [->|[m Hm]]; [rewrite sim_steps0; exact HI|].
+    destruct (sim_step good s t_end steps m (proj1 HI) Herr Hm) as [Hle Hgt].
+    destruct (Qlt_le_dec (reached s) t_end) as [L|L].
+    - destruct (Hgt L) as (Hh & Hinc & ->).
+      destruct (solve_ok _ _ _ _); cbn [fst]; [|exact HI].
+      apply after_ok_inv2; try assumption.
+      unfold sim_rest. destruct (map _ (seq 1 m)); discriminate.
+    - rewrite (Hle L). exact HI.
+  Qed.
+
+  Lemma simulate_time_course_inv2 (good : good_facts) s pts :
+    Inv2 s -> Inv2 (fst (simulate_time_course s pts)).
+  Proof.
+    intros HI.
+    destruct (has_errors s) eqn:Herr.
+    { unfold Simulator.simulate_time_course. rewrite Herr. exact HI. }
+    destruct pts as [|p0 ps].
+    { unfold Simulator.simulate_time_course. rewrite Herr. destruct (prior_t_end s); exact HI. }
+    destruct (tc_step good s (p0 :: ps) (proj1 HI) Herr ltac:(discriminate)) as [Hle Hgt].
+    destruct (Qlt_le_dec (reached s) (lastq (p0 :: ps) 0)) as [L|L].
+    - destruct (Hgt L) as (h & rest & _ & Hh & Hne & _ & ->). apply step_result_inv2; assumption.
+    - rewrite (Hle L). exact HI.
+  Qed.
+
+  Lemma update_parameters_inv2 s u : Inv2 s -> Inv2 (update_parameters Y P U pupd s u).
+  Proof. intros H. exact H. Qed.
+
+  Lemma clear_results_inv2 s : Inv2 (clear_results Y P s).
+  Proof. split; [split; [reflexivity|cbn; lra]|reflexivity]. Qed.
+
+  Lemma sim_new_inv2 y0 p : Inv2 (sim_new Y P y0 p).
+  Proof. split; [split; [reflexivity|cbn; lra]|reflexivity]. Qed.
+
+  (** an override is applied on top of the state the next segment would have started from, so
+      successive overrides accumulate *)
+  Lemma update_variables_inv2 (good : good_facts) s o :
+    Inv2 s ->
+    Inv2 (fst (update_variables Y P O yovr fx s o))
+    /\ i_y0 (s_int (fst (update_variables Y P O yovr fx s o))) = yovr (i_y0 (s_int s)) o
+    /\ index_of (fst (update_variables Y P O yovr fx s o)) = index_of s.
+  Proof.
+    intros [HI HV]. unfold update_variables. rewrite (g_updvar_keeps good).
+    unfold VInv, start_state in HV. unfold Inv in HI.
+    destruct (s_vars s) as [segs|] eqn:Ev.
+    - destruct HI as (segs' & sg & t & y & -> & Hinc & Hsync & Hpos).
+      rewrite last_row_snoc in *. cbn [fst].
+      assert (Hbase : (match s_shift s with Some sh => if Qeq_bool sh t then s_y0 s else y | None => y end) = i_y0 (s_int s))
+        by (symmetry; exact HV).
+      rewrite Hbase.
+      split; [|split].
+      + split.
+        * unfold Inv. cbn [s_vars]. exists segs', sg, t, y. split; [reflexivity|].
+          split; [unfold Simulator.index_of in *; cbn [s_vars]; try rewrite Ev in *; exact Hinc|].
+          unfold shiftv. cbn [s_int s_shift integ_init i_t0]. split; lra.
+        * unfold VInv, start_state. cbn [s_vars s_int s_shift s_y0 integ_init i_y0]. rewrite last_row_snoc.
+          assert (E : Qeq_bool t t = true) by (apply Qeq_bool_iff; reflexivity). rewrite E. reflexivity.
+      + reflexivity.
+      + unfold Simulator.index_of. cbn [s_vars]. try rewrite Ev. reflexivity.
+    - cbn [fst]. rewrite HV. destruct HI as [Hs Ht0]. split; [|split].
+      + split.
+        * unfold Inv. cbn [s_vars s_shift s_int integ_init i_t0]. split; [exact Hs|lra].
+        * unfold VInv, start_state. cbn [s_vars s_int s_y0 integ_init i_y0]. reflexivity.
+      + reflexivity.
+      + unfold Simulator.index_of. cbn [s_vars]. rewrite Ev. reflexivity.
   Qed.
